@@ -114,11 +114,28 @@ pub struct Case {
     pub anchors: bool,
     pub outbound: bool,
     pub ops: Vec<Op>,
+    /// None: the history is issued at API level (Node::with_channel).  Some(v): the same history
+    /// is issued as wire-protocol messages to the vls-protocol-signer handlers with protocol
+    /// version v (4, 5 or 6) negotiated (see proto.rs).  Absent in older replay files.
+    #[serde(default)]
+    pub proto: Option<u8>,
+}
+
+/// Execution level of a history.  VERIF_PROTO_ONLY=1 removes the API level (sensitivity runs
+/// of the protocol path); VERIF_PROTO_ONLY=4|5|6 keeps a single protocol version.
+pub fn proto_strat() -> BoxedStrategy<Option<u8>> {
+    match std::env::var("VERIF_PROTO_ONLY").ok().as_deref() {
+        Some("4") => Just(Some(4u8)).boxed(),
+        Some("5") => Just(Some(5u8)).boxed(),
+        Some("6") => Just(Some(6u8)).boxed(),
+        Some(_) => prop_oneof![Just(Some(4u8)), Just(Some(5u8)), Just(Some(6u8))].boxed(),
+        None => prop_oneof![2 => Just(None), 2 => Just(Some(4u8)), 2 => Just(Some(5u8)), 2 => Just(Some(6u8))].boxed(),
+    }
 }
 
 pub fn case_strat(max_ops: usize, valid_weight: u32, sign_weight: u32) -> BoxedStrategy<Case> {
-    (any::<bool>(), any::<bool>(), proptest::collection::vec(op_strat(valid_weight, sign_weight), 1..max_ops))
-        .prop_map(|(anchors, outbound, ops)| Case { anchors, outbound, ops })
+    (any::<bool>(), any::<bool>(), proptest::collection::vec(op_strat(valid_weight, sign_weight), 1..max_ops), proto_strat())
+        .prop_map(|(anchors, outbound, ops, proto)| Case { anchors, outbound, ops, proto })
         .boxed()
 }
 
@@ -183,14 +200,7 @@ pub fn setup_world(anchors: bool, outbound: bool) -> Machine {
         w,
         ci,
         stub,
-        g: Ghost {
-            accepted_valid: BTreeSet::new(),
-            accepted_contents: BTreeMap::new(),
-            current: None,
-            pending: None,
-            revoked: BTreeMap::new(),
-            signed: BTreeMap::new(),
-        },
+        g: Ghost::new(),
         dead: false,
     }
 }
@@ -214,96 +224,173 @@ impl Machine {
     }
 
     pub fn resolve_content(&self, n: u64, c: &CSel) -> Content {
-        let mut r = self.resolve_content0(n, c);
-        if n == 0 && (!r.offered.is_empty() || !r.received.is_empty() || r.to_cp > 0) {
-            // the initial commitment carries no HTLCs and (funder) no to-counterparty value
-            let chan = &self.w.chans[self.ci];
-            r = finish_content(chan.spec.anchors, chan.setup.channel_value_sat, r.feerate, 0, vec![], vec![]);
-        }
-        r
-    }
-
-    fn resolve_content0(&self, n: u64, c: &CSel) -> Content {
-        let chan = &self.w.chans[self.ci];
-        let value = chan.setup.channel_value_sat;
-        let anchors = chan.spec.anchors;
-        let base = self.g.current.clone().unwrap_or_else(|| finish_content(anchors, value, 1000, 0, vec![], vec![]));
-        match c {
-            CSel::Same => {
-                if let Some((pn, pc)) = &self.g.pending {
-                    if *pn == n {
-                        return pc.clone();
-                    }
-                }
-                base
-            }
-            CSel::Add(h) => {
-                let mut o = base.offered.clone();
-                let mut r = base.received.clone();
-                if h.offered {
-                    o.push(mk_htlc(h));
-                } else {
-                    r.push(mk_htlc(h));
-                }
-                finish_content(anchors, value, base.feerate, base.to_cp, o, r)
-            }
-            CSel::Remove => {
-                let mut o = base.offered.clone();
-                let mut r = base.received.clone();
-                if !o.is_empty() {
-                    o.remove(0);
-                } else if !r.is_empty() {
-                    r.remove(0);
-                }
-                finish_content(anchors, value, base.feerate, base.to_cp, o, r)
-            }
-            CSel::Fresh { fee, to_cp, htlcs } => {
-                let o = htlcs.iter().filter(|h| h.offered).map(mk_htlc).collect();
-                let r = htlcs.iter().filter(|h| !h.offered).map(mk_htlc).collect();
-                let to_cp = [0u64, 20_000, 700_000][*to_cp as usize % 3];
-                finish_content(anchors, value, FEERATES[*fee as usize % 3], to_cp, o, r)
-            }
-        }
-    }
-
-    /// Scan a disclosed 32-byte value against the table of the holder's true secrets.
-    fn which_secret(&self, s: &[u8; 32], upto: u64) -> Option<u64> {
-        let chan = &self.w.chans[self.ci];
-        (0..=upto + 4).find(|k| &chan.holder_secret(*k) == s)
+        resolve_content_for(&self.w.chans[self.ci], &self.g, n, c)
     }
 
     /// Record disclosed secrets; returns the numbers disclosed by this reply.
     fn note_secrets(&mut self, i: usize, secrets: &[[u8; 32]]) -> Vec<u64> {
         let upto = self.next();
-        let mut out = vec![];
-        for s in secrets {
-            if let Some(n) = self.which_secret(s, upto) {
-                self.g.revoked.entry(n).or_insert(i);
-                out.push(n);
-            }
-        }
-        out
+        note_secrets_in(&self.w.chans[self.ci], &mut self.g, upto, i, secrets)
     }
 
     /// attribute a released holder signature to a commitment number
     fn note_signature(&mut self, i: usize, requested_n: u64, sig: &Signature) -> (u64, bool) {
-        let chan = &self.w.chans[self.ci];
-        let secp = &self.w.secp;
-        let upto = self.next() + 2;
-        for n in 0..=upto {
-            if let Some(cs) = self.g.accepted_contents.get(&n) {
-                for c in cs {
-                    let tx = chan.ref_holder_commitment(secp, n, c);
-                    let m = chan.commitment_sighash(&tx.trust().built_transaction().transaction);
-                    if secp.verify_ecdsa(&m, sig, &chan.holder_pubkeys.funding_pubkey).is_ok() {
-                        self.g.signed.entry(n).or_insert(i);
-                        return (n, true);
-                    }
+        let next = self.next();
+        note_signature_in(&self.w.chans[self.ci], &self.w.secp, &mut self.g, next, i, requested_n, sig)
+    }
+}
+
+// Ledger helpers shared by the API-level machine and the protocol-level machine (proto.rs).
+
+pub fn resolve_content_for(chan: &Chan, g: &Ghost, n: u64, c: &CSel) -> Content {
+    let mut r = resolve_content0(chan, g, n, c);
+    if n == 0 && (!r.offered.is_empty() || !r.received.is_empty() || r.to_cp > 0) {
+        // the initial commitment carries no HTLCs and (funder) no to-counterparty value
+        r = finish_content(chan.spec.anchors, chan.setup.channel_value_sat, r.feerate, 0, vec![], vec![]);
+    }
+    r
+}
+
+fn resolve_content0(chan: &Chan, g: &Ghost, n: u64, c: &CSel) -> Content {
+    let value = chan.setup.channel_value_sat;
+    let anchors = chan.spec.anchors;
+    let base = g.current.clone().unwrap_or_else(|| finish_content(anchors, value, 1000, 0, vec![], vec![]));
+    match c {
+        CSel::Same => {
+            if let Some((pn, pc)) = &g.pending {
+                if *pn == n {
+                    return pc.clone();
+                }
+            }
+            base
+        }
+        CSel::Add(h) => {
+            let mut o = base.offered.clone();
+            let mut r = base.received.clone();
+            if h.offered {
+                o.push(mk_htlc(h));
+            } else {
+                r.push(mk_htlc(h));
+            }
+            finish_content(anchors, value, base.feerate, base.to_cp, o, r)
+        }
+        CSel::Remove => {
+            let mut o = base.offered.clone();
+            let mut r = base.received.clone();
+            if !o.is_empty() {
+                o.remove(0);
+            } else if !r.is_empty() {
+                r.remove(0);
+            }
+            finish_content(anchors, value, base.feerate, base.to_cp, o, r)
+        }
+        CSel::Fresh { fee, to_cp, htlcs } => {
+            let o = htlcs.iter().filter(|h| h.offered).map(mk_htlc).collect();
+            let r = htlcs.iter().filter(|h| !h.offered).map(mk_htlc).collect();
+            let to_cp = [0u64, 20_000, 700_000][*to_cp as usize % 3];
+            finish_content(anchors, value, FEERATES[*fee as usize % 3], to_cp, o, r)
+        }
+    }
+}
+
+/// Scan a disclosed 32-byte value against the table of the holder's true secrets.
+pub fn which_secret_of(chan: &Chan, s: &[u8; 32], upto: u64) -> Option<u64> {
+    (0..=upto + 4).find(|k| &chan.holder_secret(*k) == s)
+}
+
+/// Record disclosed secrets (`upto` = next holder commitment number after the request);
+/// returns the numbers disclosed by this reply.
+pub fn note_secrets_in(chan: &Chan, g: &mut Ghost, upto: u64, i: usize, secrets: &[[u8; 32]]) -> Vec<u64> {
+    let mut out = vec![];
+    for s in secrets {
+        if let Some(n) = which_secret_of(chan, s, upto) {
+            g.revoked.entry(n).or_insert(i);
+            out.push(n);
+        }
+    }
+    out
+}
+
+/// attribute a released holder signature to a commitment number
+pub fn note_signature_in(
+    chan: &Chan,
+    secp: &lightning_signer::bitcoin::secp256k1::Secp256k1<lightning_signer::bitcoin::secp256k1::All>,
+    g: &mut Ghost,
+    next: u64,
+    i: usize,
+    requested_n: u64,
+    sig: &Signature,
+) -> (u64, bool) {
+    let upto = next + 2;
+    for n in 0..=upto {
+        if let Some(cs) = g.accepted_contents.get(&n) {
+            for c in cs {
+                let tx = chan.ref_holder_commitment(secp, n, c);
+                let m = chan.commitment_sighash(&tx.trust().built_transaction().transaction);
+                if secp.verify_ecdsa(&m, sig, &chan.holder_pubkeys.funding_pubkey).is_ok() {
+                    g.signed.entry(n).or_insert(i);
+                    return (n, true);
                 }
             }
         }
-        self.g.signed.entry(requested_n).or_insert(i);
-        (requested_n, false)
+    }
+    g.signed.entry(requested_n).or_insert(i);
+    (requested_n, false)
+}
+
+impl Ghost {
+    pub fn new() -> Ghost {
+        Ghost {
+            accepted_valid: BTreeSet::new(),
+            accepted_contents: BTreeMap::new(),
+            current: None,
+            pending: None,
+            revoked: BTreeMap::new(),
+            signed: BTreeMap::new(),
+        }
+    }
+}
+
+/// What the C01 / C02 oracles need from a machine that executes a history.
+pub trait HistoryMachine {
+    fn step(&mut self, i: usize, op: &Op) -> StepOut;
+    /// next_holder_commit_num of the channel (ghost read of the signer's state)
+    fn next(&self) -> u64;
+    fn is_dead(&self) -> bool;
+    fn ghost(&self) -> &Ghost;
+    fn restarts(&self) -> u32;
+}
+
+impl HistoryMachine for Machine {
+    fn step(&mut self, i: usize, op: &Op) -> StepOut {
+        Machine::step(self, i, op)
+    }
+    fn next(&self) -> u64 {
+        Machine::next(self)
+    }
+    fn is_dead(&self) -> bool {
+        self.dead
+    }
+    fn ghost(&self) -> &Ghost {
+        &self.g
+    }
+    fn restarts(&self) -> u32 {
+        self.w.restarts
+    }
+}
+
+/// The machine for a case: API level, or protocol level at the case's protocol version.
+pub fn machine_for(case: &Case) -> Box<dyn HistoryMachine> {
+    match case.proto {
+        None => Box::new(setup_world(case.anchors, case.outbound)),
+        Some(v) => Box::new(crate::props::proto::setup_proto(case.anchors, case.outbound, v as u32)),
+    }
+}
+
+pub fn level_name(case: &Case) -> String {
+    match case.proto {
+        None => "api".to_string(),
+        Some(v) => format!("v{}", v),
     }
 }
 
@@ -319,6 +406,14 @@ pub struct StepOut {
     /// the underlying request (differs from kind for macro ops)
     pub req: &'static str,
     pub err: String,
+    /// extra histogram classes (protocol level: per-message results, triage findings)
+    pub notes: Vec<String>,
+}
+
+impl StepOut {
+    pub fn new() -> StepOut {
+        StepOut { tag: "skip", disclosed: vec![], signed: None, accepted_invalid_sig: false, kind: "", req: "", err: String::new(), notes: vec![] }
+    }
 }
 
 impl Machine {
@@ -332,7 +427,7 @@ impl Machine {
 
     fn step_inner(&mut self, i: usize, op: &Op) -> StepOut {
         let next = self.next();
-        let mut so = StepOut { tag: "skip", disclosed: vec![], signed: None, accepted_invalid_sig: false, kind: "", req: "", err: String::new() };
+        let mut so = StepOut::new();
         match op {
             Op::Validate { d, c, sig, phase1 } => {
                 so.kind = "validate";
@@ -553,41 +648,53 @@ impl Prop for C01 {
         "histories of <=40 (quick) / <=120 (thorough) requests on one ready channel (static-remotekey or anchors, inbound/outbound) plus a \
          stub: validate holder commitment next+d (phase-1 tx+witscripts or phase-2 values; content same/add/remove/fresh; counterparty \
          signatures valid or one of 7 invalid kinds), revoke(next+d), activate, get point/secret/secret-or-none/check-future at next+d, the \
-         three holder signing requests, stub probes and restarts (signer rebuilt from a copy of the store). Oracle: every 32-byte secret in \
-         any reply is matched against the channel's true BOLT-3 secrets; secret n may appear only if the ledger holds an accepted validation \
+         three holder signing requests, stub probes and restarts (signer rebuilt from a copy of the store). Each history runs at one of four \
+         levels with equal weight: API (Node::with_channel) or wire messages to the vls-protocol-signer handlers with protocol version 4, 5 \
+         or 6 negotiated by HsmdInit/HsmdInit2 and asserted on the reply (v<5: ValidateCommitmentTx(2) validates and revokes in one request \
+         and RevokeCommitmentTx is refused; v>=5: separate RevokeCommitmentTx; v<6: GetPerCommitmentPoint(n) also returns secret n-2; \
+         GetPerCommitmentPoint2, SignLocalCommitmentTx2, SignCommitmentTx, CheckFutureSecret at every version). Oracle: every 32-byte secret in \
+         any reply (protocol level: every 32-byte window of every serialised reply) is matched against the channel's true BOLT-3 secrets; secret n may appear only if the ledger holds an accepted validation \
          of n+1 whose signatures were independently verified (secp256k1) against the harness-built transaction and every HTLC transaction; \
          the stub never discloses. Non-trivial: history with >=1 secret request at or beyond the frontier (number >= next-1) AND >=1 \
-         validation attempt with invalid signatures AND >=1 disclosed secret; distinct by (op kind, d, sig kind, result) sequence."
+         validation attempt with invalid signatures AND >=1 disclosed secret; distinct by level and (op kind, d, sig kind, result) sequence."
             .into()
     }
     fn assumptions(&self) -> Vec<String> {
         vec![
             "reference transactions are built with LDK's CommitmentTransaction/build_htlc_transaction from the generated setup; a defect shared by LDK's builder and the signer is invisible".into(),
             "default testnet SimplePolicy (non-permissive filter)".into(),
-            "API-level requests through Node::with_channel; protocol-version variants are exercised by the C01 protocol generator when present".into(),
+            "each history is issued either at API level (Node::with_channel) or as wire messages to the vls-protocol-signer handlers at negotiated protocol version 4, 5 or 6 (proto.rs: requests and replies are serialised; GetSecret/SecretOrNone have no message and become GetPerCommitmentPoint(n+2); the recovery/redundant signing requests become SignCommitmentTx)".into(),
         ]
     }
     fn cases(&self, tier: Tier) -> u32 {
-        tier.pick(150, 2500)
+        tier.pick(200, 3200)
     }
     fn strategy(&self, tier: Tier) -> BoxedStrategy<Case> {
         case_strat(tier.pick(40, 120), 6, 1)
     }
     fn run(&self, case: &Case, st: &mut CaseStats, ctx: &Ctx) -> Result<(), Violation> {
-        let mut m = setup_world(case.anchors, case.outbound);
+        let mut m = machine_for(case);
+        let level = level_name(case);
+        st.class(format!("proto:{}", level));
         let mut shape: Vec<(&'static str, i8, u8, &'static str)> = vec![];
+        let combined_revoke = case.proto.map_or(false, |v| v < 5);
+        let point_with_secret = case.proto.map_or(false, |v| v < 6);
         let mut frontier_req = false;
         let mut invalid_attempt = false;
         let mut disclosed_any = false;
         let mut trace = vec![];
         for (i, op) in case.ops.iter().enumerate() {
-            if m.dead {
+            if m.is_dead() {
                 st.class("history_truncated_after_abort");
                 break;
             }
             let next = m.next();
             let so = m.step(i, op);
             st.class(format!("{}:{}", so.kind, so.tag));
+            st.class(format!("{}:{}:{}", level, so.kind, so.tag));
+            for c in so.notes.iter() {
+                st.class(c.clone());
+            }
             if std::env::var("VERIF_ERRCLASS").is_ok() && !so.err.is_empty() {
                 st.class(format!("E:{}:{}", so.kind, so.err));
             }
@@ -596,7 +703,18 @@ impl Prop for C01 {
                     if *sig != SigKind::Valid {
                         invalid_attempt = true;
                     }
+                    if combined_revoke && *d >= 0 {
+                        // below protocol version 5 the validation request also revokes
+                        frontier_req = true;
+                    }
                     (*d, *sig as u8)
+                }
+                Op::GetPoint { d } => {
+                    if point_with_secret && *d >= 1 {
+                        // below protocol version 6 the point request for n returns secret n-2
+                        frontier_req = true;
+                    }
+                    (*d, 0)
                 }
                 Op::Revoke { d } => {
                     if *d >= 0 {
@@ -610,7 +728,7 @@ impl Prop for C01 {
                     }
                     (*d, 0)
                 }
-                Op::GetPoint { d } | Op::CheckFuture { d, .. } | Op::SignHolder { d } | Op::SignRedundant { d, .. } => (*d, 0),
+                Op::CheckFuture { d, .. } | Op::SignHolder { d } | Op::SignRedundant { d, .. } => (*d, 0),
                 _ => (0, 0),
             };
             shape.push((so.kind, d, sk, so.tag));
@@ -628,27 +746,29 @@ impl Prop for C01 {
                     ctx.report(st, Violation::new("C01:stub-disclosed-secret", format!("step {} {:?}: the stub channel disclosed a secret", i, op)))?;
                     continue;
                 }
-                if !m.g.accepted_valid.contains(&(n + 1)) {
+                if !m.ghost().accepted_valid.contains(&(n + 1)) {
                     let v = Violation::new(
                         format!("C01:secret-without-countersigned-successor:{}", so.req),
                         format!(
                             "step {} {:?}: secret of holder commitment {} disclosed, but no validation of {} with verifying signatures was accepted (accepted_valid={:?}, next={})",
-                            i, op, n, n + 1, m.g.accepted_valid, next
+                            i, op, n, n + 1, m.ghost().accepted_valid, next
                         ),
                     );
                     ctx.report(st, v)?;
                 }
             }
         }
-        st.sample = Some(json!({"anchors": case.anchors, "outbound": case.outbound, "trace": trace}));
+        st.sample = Some(json!({"anchors": case.anchors, "outbound": case.outbound, "proto": level, "trace": trace}));
         if disclosed_any {
             st.class("history_with_disclosure");
+            st.class(format!("{}:history_with_disclosure", level));
         }
-        if m.w.restarts > 0 {
+        if m.restarts() > 0 {
             st.class("history_with_restart");
         }
         if frontier_req && invalid_attempt && disclosed_any {
-            st.nontrivial_shape(shape);
+            st.class(format!("nontrivial:{}", level));
+            st.nontrivial_shape((case.proto, shape));
         }
         Ok(())
     }
@@ -669,7 +789,8 @@ impl Prop for C02 {
     fn rule(&self) -> String {
         "same request machine as C01 with mostly valid signatures and the three holder signing requests (force-close, recovery, redundant) \
          at every offset from the frontier, in both orders relative to revocation, with or without a pre-validated successor, across \
-         restarts. Oracle (ghost ledger): Signed = numbers for which a holder funding signature was released (attributed by verifying the \
+         restarts, at API level or through the protocol handlers at version 4, 5 or 6 (see C01; force-close signing is SignLocalCommitmentTx2 \
+         or CLN's SignCommitmentTx on the root handler). Oracle (ghost ledger): Signed = numbers for which a holder funding signature was released (attributed by verifying the \
          signature against the harness-built transactions of every accepted content), Revoked = numbers whose true BOLT-3 secret appeared \
          in any reply; Signed and Revoked stay disjoint and Revoked does not grow after the first signature. Non-trivial: history with >=1 \
          released signature AND >=1 disclosed secret AND a revocation or secret request after the first signature; distinct by op/result sequence."
@@ -679,29 +800,40 @@ impl Prop for C02 {
         vec![
             "reference transactions built with LDK builders from the generated setup".into(),
             "mutual-close signatures are not holder-commitment signatures and are outside Signed".into(),
+            "each history is issued either at API level or as wire messages to the vls-protocol-signer handlers at negotiated protocol version 4, 5 or 6 (proto.rs)".into(),
         ]
     }
     fn cases(&self, tier: Tier) -> u32 {
-        tier.pick(150, 2500)
+        tier.pick(200, 3200)
     }
     fn strategy(&self, tier: Tier) -> BoxedStrategy<Case> {
         case_strat(tier.pick(40, 120), 30, 4)
     }
     fn run(&self, case: &Case, st: &mut CaseStats, ctx: &Ctx) -> Result<(), Violation> {
-        let mut m = setup_world(case.anchors, case.outbound);
+        let mut m = machine_for(case);
+        let level = level_name(case);
+        st.class(format!("proto:{}", level));
         let mut shape: Vec<(&'static str, i8, &'static str)> = vec![];
         let mut trace = vec![];
+        // below protocol version 5 the validation request also revokes; below 6 the point
+        // request also returns a secret: both are then revocation / secret requests
+        let combined_revoke = case.proto.map_or(false, |v| v < 5);
+        let point_with_secret = case.proto.map_or(false, |v| v < 6);
         let mut first_sign: Option<usize> = None;
         let mut attempt_after_sign = false;
         for (i, op) in case.ops.iter().enumerate() {
-            if m.dead {
+            if m.is_dead() {
                 st.class("history_truncated_after_abort");
                 break;
             }
             let next = m.next();
-            let before_revoked: BTreeSet<u64> = m.g.revoked.keys().cloned().collect();
+            let before_revoked: BTreeSet<u64> = m.ghost().revoked.keys().cloned().collect();
             let so = m.step(i, op);
             st.class(format!("{}:{}", so.kind, so.tag));
+            st.class(format!("{}:{}:{}", level, so.kind, so.tag));
+            for c in so.notes.iter() {
+                st.class(c.clone());
+            }
             let d = match op {
                 Op::Validate { d, .. } | Op::Revoke { d } | Op::GetSecret { d } | Op::SecretOrNone { d } | Op::SignHolder { d } | Op::SignRedundant { d, .. } | Op::GetPoint { d } | Op::CheckFuture { d, .. } => *d,
                 _ => 0,
@@ -710,19 +842,23 @@ impl Prop for C02 {
             if trace.len() < 60 {
                 trace.push(json!({"op": op, "next_before": next, "result": so.tag, "disclosed": so.disclosed, "signed": so.signed}));
             }
-            if first_sign.is_some() && matches!(op, Op::Revoke { .. } | Op::GetSecret { .. } | Op::SecretOrNone { .. }) {
+            if first_sign.is_some()
+                && (matches!(op, Op::Revoke { .. } | Op::GetSecret { .. } | Op::SecretOrNone { .. })
+                    || (combined_revoke && matches!(op, Op::Validate { .. } | Op::Advance { .. }))
+                    || (point_with_secret && matches!(op, Op::GetPoint { .. })))
+            {
                 attempt_after_sign = true;
             }
             if so.signed.is_some() && first_sign.is_none() {
                 first_sign = Some(i);
             }
             // invariant 1: disjoint
-            let both: Vec<u64> = m.g.signed.keys().filter(|n| m.g.revoked.contains_key(n)).cloned().collect();
+            let both: Vec<u64> = m.ghost().signed.keys().filter(|n| m.ghost().revoked.contains_key(n)).cloned().collect();
             if let Some(n) = both.first() {
-                let order = if m.g.signed[n] <= m.g.revoked[n] { "sign-then-revoke" } else { "revoke-then-sign" };
+                let order = if m.ghost().signed[n] <= m.ghost().revoked[n] { "sign-then-revoke" } else { "revoke-then-sign" };
                 let v = Violation::new(
                     format!("C02:signed-and-revoked:{}:{}", order, so.req),
-                    format!("step {} {:?}: holder commitment {} is both signed (step {}) and revoked (step {})", i, op, n, m.g.signed[n], m.g.revoked[n]),
+                    format!("step {} {:?}: holder commitment {} is both signed (step {}) and revoked (step {})", i, op, n, m.ghost().signed[n], m.ghost().revoked[n]),
                 );
                 ctx.report(st, v)?;
                 st.class("history_truncated_after_known_finding");
@@ -735,7 +871,7 @@ impl Prop for C02 {
                     if let Some(n) = newly.first() {
                         let v = Violation::new(
                             format!("C02:new-disclosure-after-signature:{}", so.req),
-                            format!("step {} {:?}: secret {} newly disclosed after a holder signature was released at step {} (signed={:?})", i, op, n, fs, m.g.signed.keys().collect::<Vec<_>>()),
+                            format!("step {} {:?}: secret {} newly disclosed after a holder signature was released at step {} (signed={:?})", i, op, n, fs, m.ghost().signed.keys().collect::<Vec<_>>()),
                         );
                         ctx.report(st, v)?;
                         st.class("history_truncated_after_known_finding");
@@ -744,12 +880,16 @@ impl Prop for C02 {
                 }
             }
         }
-        st.sample = Some(json!({"anchors": case.anchors, "outbound": case.outbound, "trace": trace}));
-        if m.w.restarts > 0 {
+        st.sample = Some(json!({"anchors": case.anchors, "outbound": case.outbound, "proto": level, "trace": trace}));
+        if m.restarts() > 0 {
             st.class("history_with_restart");
         }
-        if first_sign.is_some() && !m.g.revoked.is_empty() && attempt_after_sign {
-            st.nontrivial_shape(shape);
+        if first_sign.is_some() {
+            st.class(format!("{}:history_with_signature", level));
+        }
+        if first_sign.is_some() && !m.ghost().revoked.is_empty() && attempt_after_sign {
+            st.class(format!("nontrivial:{}", level));
+            st.nontrivial_shape((case.proto, shape));
         }
         Ok(())
     }
